@@ -239,7 +239,8 @@ pub fn local_key_random() {
     kani::cover!(all_ok); kani::cover!(!all_ok);
 }
 
-/// canary: a false claim under the same assumptions (vacuity guard)
+/// canary: a false claim about the *inputs*, placed after every model assumption of a full seal + unseal has been made.
+/// It must FAIL whatever the code does; if it verifies, the assumptions are contradictory (vacuity guard).
 pub fn canary_wrong_aad(M: usize) {
     let T = NONCE + M + TAG;
     let key: [u8; 32] = kani::any();
@@ -249,8 +250,11 @@ pub fn canary_wrong_aad(M: usize) {
     let mut tokb = [0u8; TX];
     let tok = &mut tokb[..T];
     vspec::v4::local_encrypt(&key, &nonce, msg, b"", &[], &[7], tok);
-    let r = <V4 as UnsealingVersion<Local>>::unseal(&LocalKey(key), "", tok, &[], &[7]);
-    vassert!(r.is_err(), "canary: must fail (a correct token is accepted)");
+    let _ = <V4 as SealingVersion<Local>>::dangerous_seal_with_nonce(&LocalKey(key), "", payload_of(&nonce, msg), &[], &[7]);
+    // the call whose outcome is symbolic (accept/reject) must be the LAST model-calling operation: after it the number of
+    // memo-table entries would differ between paths and every later table access would be symbolic
+    let _ = <V4 as UnsealingVersion<Local>>::unseal(&LocalKey(key), "", tok, &[], &[7]);
+    vassert!(key[0] != 0x5a || nonce[31] != 0xa5, "canary: must fail (false claim about the symbolic inputs)");
 }
 
 macro_rules! inst {
